@@ -16,6 +16,7 @@ import (
 	"os"
 	"os/exec"
 	"path/filepath"
+	"runtime"
 	"sort"
 	"strconv"
 	"strings"
@@ -51,12 +52,31 @@ func replayChild(args []string) {
 	dir, markers := args[0], args[1]
 	seed, _ := strconv.ParseInt(args[2], 10, 64)
 	nops, _ := strconv.Atoi(args[3])
-	setHeavy := len(args) > 4 && args[4] == "stable"
+	setHeavy := len(args) > 4 && strings.HasPrefix(args[4], "stable")
+	retry := len(args) > 4 && strings.Contains(args[4], "inject=")
+	if retry {
+		// strace counts "when=N" per thread: keep the API calls on one thread
+		runtime.LockOSThread()
+	}
 	mf, err := os.OpenFile(markers, os.O_CREATE|os.O_WRONLY|os.O_APPEND, 0o644)
 	if err != nil {
 		os.Exit(5)
 	}
 	mark := func(format string, a ...any) { mf.Write([]byte(fmt.Sprintf(format, a...) + "\n")) }
+	// with injected syscall failures every operation is repeated, unchanged, until it
+	// succeeds (what raft does); it stays "in flight" for the oracle until then
+	try := func(n int, f func() error) error {
+		err := f()
+		for t := 0; err != nil && retry && t < 8; t++ {
+			mark("FAIL %d try %d: %v", n, t, err)
+			err = f()
+		}
+		if err != nil && retry {
+			mark("GIVEUP %d: %v", n, err)
+			os.Exit(7)
+		}
+		return err
+	}
 	mark("BEGIN 0 open")
 	w, err := wal.Open(dir, wal.WithSegmentSize(512), wal.WithLogger(hclog.NewNullLogger()))
 	if err != nil {
@@ -86,7 +106,7 @@ func replayChild(args []string) {
 				logs = append(logs, replayEntry(seed, n, next+uint64(i), sz))
 			}
 			mark("BEGIN %d append %d %s", n, next, strings.Join(sizes, ","))
-			if err := w.StoreLogs(logs); err != nil {
+			if err := try(n, func() error { return w.StoreLogs(logs) }); err != nil {
 				mark("ACK %d append err", n)
 			} else {
 				mark("ACK %d append ok", n)
@@ -98,7 +118,7 @@ func replayChild(args []string) {
 		case x < 70 && last > first+1:
 			mx := first + uint64(rng.Intn(int(min(3, last-first))))
 			mark("BEGIN %d delete %d %d", n, first, mx)
-			if err := w.DeleteRange(first, mx); err == nil {
+			if err := try(n, func() error { return w.DeleteRange(first, mx) }); err == nil {
 				mark("ACK %d delete ok", n)
 				first = mx + 1
 			} else {
@@ -107,7 +127,7 @@ func replayChild(args []string) {
 		case x < 80 && last > first+1:
 			mn := last - uint64(rng.Intn(int(min(3, last-first))))
 			mark("BEGIN %d delete %d %d", n, mn, last)
-			if err := w.DeleteRange(mn, last); err == nil {
+			if err := try(n, func() error { return w.DeleteRange(mn, last) }); err == nil {
 				mark("ACK %d delete ok", n)
 				last = mn - 1
 			} else {
@@ -115,7 +135,7 @@ func replayChild(args []string) {
 			}
 		case x < 84 && last > 0:
 			mark("BEGIN %d delete %d %d", n, first, last)
-			if err := w.DeleteRange(first, last); err == nil {
+			if err := try(n, func() error { return w.DeleteRange(first, last) }); err == nil {
 				mark("ACK %d delete ok", n)
 				first, last = 0, 0
 			} else {
@@ -124,7 +144,7 @@ func replayChild(args []string) {
 		default:
 			k, v := fmt.Sprintf("k%d", rng.Intn(3)), fmt.Sprintf("v%d", n)
 			mark("BEGIN %d set %s %s", n, k, v)
-			if err := w.Set([]byte(k), []byte(v)); err == nil {
+			if err := try(n, func() error { return w.Set([]byte(k), []byte(v)) }); err == nil {
 				mark("ACK %d set ok", n)
 			} else {
 				mark("ACK %d set err", n)
@@ -267,11 +287,22 @@ func replayScenario(c *evid.Ctx, seed int64, nops int, pointStride int, mix stri
 	os.Mkdir(dir, 0o755)
 	markers := filepath.Join(tmp, "markers")
 	logf := filepath.Join(tmp, "trace.log")
-	cmd := exec.Command("strace", "-f", "-y", "-xx", "-s", "2000000", "-e", "trace=openat,pwrite64,fsync,fdatasync,unlinkat,unlink,renameat,renameat2,rename,fallocate,ftruncate,write",
-		"-o", logf, os.Args[0], "-child", "replay-workload", dir, markers, fmt.Sprint(seed), fmt.Sprint(nops), mix)
-	if out, err := cmd.CombinedOutput(); err != nil {
+	sargs := []string{"-f", "-y", "-xx", "-s", "2000000", "-e", "trace=openat,pwrite64,fsync,fdatasync,unlinkat,unlink,renameat,renameat2,rename,fallocate,ftruncate,write"}
+	inject := ""
+	if i := strings.Index(mix, "inject="); i >= 0 {
+		// syscall failures injected by strace: the calls that hit them fail and are repeated by
+		// the child; what is acknowledged in between must survive every power-loss image
+		inject = mix[i+len("inject="):]
+		sargs = append(sargs, "-e", "inject="+inject)
+	}
+	sargs = append(sargs, "-o", logf, os.Args[0], "-child", "replay-workload", dir, markers, fmt.Sprint(seed), fmt.Sprint(nops), mix)
+	cmd := exec.Command("strace", sargs...)
+	if out, err := cmd.CombinedOutput(); err != nil && inject == "" {
 		c.Inconclusive("traced replay child failed: %v %.200s", err, out)
 		return
+	}
+	if inject != "" {
+		c.Count("replay_scenarios_with_injected_failures", 1)
 	}
 	res, err := proc.Parse(logf, markers)
 	if err != nil || len(res.Unparsed) > 0 {
